@@ -131,6 +131,7 @@ type world struct {
 	failed   map[skey]struct{}
 	badSince map[string]bool   // series mentioned by a rejected request since the last cache reset
 	ackClass map[akey]string   // explanation of an undiscoverable sample, fixed at the moment it was acknowledged
+	ownFailed map[skey]struct{} // series rows of failed INSERTs of the request being folded in (only during push)
 	splDays  map[skey]struct{} // series rows (sent, INSERT ok or not) whose day is NOT the UTC day of any sample of their own request while day+1 is
 	requests int64
 	inserts  int64
@@ -143,6 +144,7 @@ func newWorld(cfg bConfig) *world {
 	config.Cloki.Setting.SYSTEM_SETTINGS.RetryAttempts = cfg.Retry
 	config.Cloki.Setting.SYSTEM_SETTINGS.RetryTimeoutS = 0
 	service.CreateColPools(0)
+	service.VerifSmallPools() // same pools, small initial capacities (see _overlay/writer/service/zz_verif_export.go)
 	node := &model.DataDatabasesMap{ClokiBaseDataBase: clcfg.ClokiBaseDataBase{Node: "n1", WriteTimeout: 30}}
 	if cfg.Cluster {
 		node.ClusterName = "c1"
@@ -351,6 +353,8 @@ func (w *world) push(series string, ts int64, bad bool) int {
 			}
 		}
 	}
+	w.ownFailed = map[skey]struct{}{}
+	defer func() { w.ownFailed = nil }()
 	for _, ins := range log {
 		w.inserts++
 		if len(ins.RowsPer) > 0 {
@@ -369,6 +373,7 @@ func (w *world) push(series string, ts int64, bad bool) int {
 					w.inserted[skey{r.FP, r.Day}] = struct{}{}
 				} else {
 					w.failed[skey{r.FP, r.Day}] = struct{}{}
+					w.ownFailed[skey{r.FP, r.Day}] = struct{}{}
 				}
 			}
 		case "samples":
@@ -532,7 +537,7 @@ func (w *world) checkOne(k akey) (class, what string) {
 		bt, _ := time.Parse("2006-01-02", bound)
 		bday := uint16(bt.Unix() / 86400)
 		_, off := t.In(time.Local).Zone()
-		failedGood, any := false, false
+		failedGood, ownFailedGood, any := false, false, false
 		// D9 signature: the series row for this very day was sent (INSERT ok or not) by a request none of whose
 		// samples falls on the row's day while one falls on the next day — i.e. dated one day early — in a zone west of UTC
 		shifted := false
@@ -543,6 +548,9 @@ func (w *world) checkOne(k akey) (class, what string) {
 		for r := range w.failed {
 			if r.FP == k.FP && r.Day >= bday {
 				failedGood = true
+				if _, own := w.ownFailed[r]; own {
+					ownFailedGood = true
+				}
 			}
 			if r.FP == k.FP && sig(r) {
 				shifted = true
@@ -563,6 +571,9 @@ func (w *world) checkOne(k akey) (class, what string) {
 		case shifted && off < 0:
 			// the row exists (or was attempted) one day early in a zone west of UTC (D9)
 			return "series_row_day_shifted_west_of_utc", what
+		case ownFailedGood:
+			// the request that is being acknowledged is the one whose series INSERT failed
+			return "ack_although_own_series_insert_failed", what
 		case failedGood:
 			// a row that would have satisfied the reader was part of a failed series INSERT and was never re-sent (D2)
 			return "ack_without_series_row_after_failed_series_insert", what
